@@ -47,7 +47,18 @@ class C06(DevProp):
     rule = ("one device per configuration: range (8-bit signed/unsigned: EVERY raw value up and down; 16-bit, 10/12-bit and hat: edges, deadzone "
             "edges +-1, sampled) x deadzone value x deadzone source (specific, per-handler default, global default) x flip x deadzone_at_center "
             "(min = 0 only) x {unidirectional CC, bidirectional CC, pitch bend}; the up/down sweep plus random jumps exercises (previous, new) pairs of "
-            "the duplicate suppression; non-trivial = distinct configurations with at least 10 transmitted axis events")
+            "the duplicate suppression; plus a mapping-switch stream: 2-3 mappings with different deadzone / flip / kind for the same axis, partial "
+            "sweeps separated by mapping_up / mapping_down and the up+down chord (reset), each event judged with the configuration of the mapping "
+            "State() reported; non-trivial = distinct configurations with at least 10 transmitted axis events")
+
+    @staticmethod
+    def emit_g(g):
+        return "(Build_c06cfg %s%%Z %s%%Z %s %s %s %s %d %d)" % (cZ(g["mn"]), cZ(g["mx"]), cbool(g["dzc"]), cbool(g["flip"]), KIND[g["kind"]],
+                                                                agen.fbits(g["dzbits"]), g["cc"], g["ccneg"])
+
+    def emit_multi(self, case, res):
+        gs = clist(["(%d, %s)" % (i, self.emit_g(g)) for i, g in enumerate(case["gs"])])
+        return "(Build_c06mcase %s %d %s)" % (gs, case["cfg"]["mapping"], agen.emit_acase(case, res))
 
     def emit(self, case, res):
         g = case["g"]
@@ -57,12 +68,25 @@ class C06(DevProp):
 
     def evaluate(self, cases, results, tag):
         import math
-        evals = [("FAIL", "enum_fail (fun k => %s) 0 cases" % self.fail_term),
-                 ("MIS", "enum_some (fun k => %s) 0 cases" % self.mis_term),
-                 ("NT", "enum_true (fun k => Nat.leb 10 (c06_transmitted k)) 0 cases")]
         import devrun
-        n = max(2, min(12, math.ceil(len(cases) / 8)))
-        return devrun.eval_shards(cases, results, evals, imports=self.imports, shard=n, emit=self.emit, case_type=self.case_type, tag=tag)
+        merged = {"FAIL": [], "MIS": [], "NT": []}
+        for multi in (False, True):
+            idx = [i for i, c in enumerate(cases) if ("gs" in c) == multi]
+            if not idx:
+                continue
+            pre = "c06m" if multi else "c06"
+            evals = [("FAIL", "enum_fail (fun k => %s_failures k) 0 cases" % pre),
+                     ("MIS", "enum_some (fun k => %s_mismatch k) 0 cases" % pre),
+                     ("NT", "enum_true (fun k => Nat.leb 10 (%s_transmitted k)) 0 cases" % pre)]
+            n = max(2, min(12, math.ceil(len(idx) / 8)))
+            m = devrun.eval_shards([cases[i] for i in idx], [results[i] for i in idx], evals, imports=self.imports, shard=n,
+                                   emit=self.emit_multi if multi else self.emit, case_type="c06mcase" if multi else "c06case",
+                                   tag=tag + ("m" if multi else ""))
+            for name in merged:
+                merged[name] += [(idx[it[0]],) + tuple(it[1:]) for it in m[name]]
+        for name in merged:
+            merged[name].sort()
+        return merged
 
     def make_case(self, rng, mn, mx, dz, src, flip, dzc, kind):
         sub = "" if src != "global" else "stick"
@@ -81,8 +105,58 @@ class C06(DevProp):
                 "g": {"mn": mn, "mx": mx, "dzc": dzc, "flip": flip, "kind": kind, "dzbits": bits(dz), "cc": 20, "ccneg": 21},
                 "tag": "%s[%d,%d]" % (kind, mn, mx)}
 
+    def make_multi_case(self, rng, mn, mx):
+        """2-3 mappings with different deadzone / flip / kind for the same axis; mapping_up / mapping_down between partial sweeps,
+        including the up+down chord (reset to the first mapping) pressed from every mapping."""
+        n_maps = rng.choice([2, 3])
+        dzs = rng.sample([0.0, 0.05, 0.1, 0.2, 0.33, 0.5], n_maps)
+        maps, gs = [], []
+        for i in range(n_maps):
+            kind = rng.choice(["cc_uni", "cc_bidi", "pb"])
+            flip = rng.random() < 0.3
+            dzc = mn == 0 and rng.random() < 0.3
+            an = agen.analog(agen.ABS_X, "cc" if kind != "pb" else "pitch_bend", cc=20 + 2 * i, ccneg=21 + 2 * i, off=rng.choice([0, 3]),
+                             offneg=rng.choice([0, 5]), flip=flip, bidi=(kind == "cc_bidi"), dzc=dzc)
+            maps.append({"name": "M%d" % i, "midi": [], "analog": [an], "dz": [{"sub": "", "code": agen.ABS_X, "bits": str(bits(dzs[i]))}],
+                         "defdz": [{"sub": "", "bits": str(bits(0.37))}], "subs": []})
+            gs.append({"mn": mn, "mx": mx, "dzc": dzc, "flip": flip, "kind": kind, "dzbits": bits(dzs[i]), "cc": 20 + 2 * i, "ccneg": 21 + 2 * i})
+        UP, DOWN = 59, 60
+        cfg = agen.base_cfg([], actions=[{"code": UP, "action": "mapping_up"}, {"code": DOWN, "action": "mapping_down"}],
+                            channel=rng.choice([1, 16]), mapping=rng.randrange(n_maps))
+        cfg["mappings"] = maps
+
+        def k(code, val):
+            return {"t": "k", "sub": "", "code": code, "val": val}
+
+        def part():
+            pts = {mn, mx, 0, (mn + mx) // 2} | {rng.randint(mn, mx) for _ in range(14)}
+            for d in dzs:
+                for base in (mx, abs(mn) if mn < 0 else mx):
+                    pts |= {int(d * base * f) for f in (0.5, 1.5, -0.5, -1.5)}
+            pts = [v for v in pts if mn <= v <= mx]
+            rng.shuffle(pts)
+            return [a(agen.ABS_X, v) for v in pts]
+
+        ev = part()
+        for _ in range(rng.randint(3, 6)):
+            r = rng.random()
+            if r < 0.3:
+                ev += [k(UP, 1), k(UP, 0)]
+            elif r < 0.5:
+                ev += [k(DOWN, 1), k(DOWN, 0)]
+            else:
+                first, second = (UP, DOWN) if rng.random() < 0.6 else (DOWN, UP)
+                ev += [k(first, 1)] + (part() if rng.random() < 0.6 else []) + [k(second, 1)]
+                ev += [k(first, 0), k(second, 0)] if rng.random() < 0.5 else [k(second, 0), k(first, 0)]
+            ev += part()
+        return {"cfg": cfg, "abs": [{"code": agen.ABS_X, "min": mn, "max": mx}], "events": ev, "gs": gs, "g": {"per_mapping": gs},
+                "tag": "mapping-switch[%d,%d]" % (mn, mx)}
+
     def gen(self, rng, tier):
         cases = []
+        for i in range(16 if tier == "quick" else 150):
+            mn, mx = (RANGES8 + [(-32768, 32767), (0, 1023)])[i % 5]
+            cases.append(self.make_multi_case(rng, mn, mx))
         combos = []
         for (mn, mx) in RANGES8 + RANGES_BIG:
             for flip in (False, True):
